@@ -11,7 +11,7 @@ import itertools
 SUPPORTS_REPLAY = True
 SHARDS = {'quick': 16, 'thorough': 64}
 TIMEOUT = {'quick': 900, 'thorough': 5400}
-MUST_HIT = ['OrderedSetInv', 'ListModel', 'icontract.OrderedSetInv', 'Operand.binary-operand-with-repeats', 'Operand.one-shot-iterator-operand', 'Ambient.OrderedSetInv.ambient', 'Ambient.Suite.tests-passed']
+MUST_HIT = ['OrderedSetInv', 'ListModel', 'icontract.OrderedSetInv', 'Operand.binary-operand-with-repeats', 'Operand.one-shot-iterator-operand', 'Operand.reverse-iteration-with-removal', 'Ambient.OrderedSetInv.ambient', 'Ambient.Suite.tests-passed']
 MUST_REACH = ['xtuml/tools.py:OrderedSet.add', 'xtuml/tools.py:OrderedSet.discard',
               'xtuml/tools.py:OrderedSet.pop', 'xtuml/tools.py:OrderedSet.__eq__',
               'xtuml/tools.py:OrderedSet.__reversed__', 'xtuml/meta.py:QuerySet.last']
@@ -225,7 +225,11 @@ def apply(s, model, op, cls):
     elif name == 'iterrm':
         visited = []
         k = len(op[1])
-        for x in s:
+        # forwards, or in reverse (reversed() is iteration as well)
+        backwards = (len(model) + len(op[1])) % 2 == 1
+        if backwards:
+            HITS['reverse-iteration-with-removal'] = HITS.get('reverse-iteration-with-removal', 0) + 1
+        for x in (reversed(s) if backwards else s):
             visited.append(x)
             if x in op[1]:
                 # the visited element goes away through remove() and through discard() in turn
@@ -234,9 +238,9 @@ def apply(s, model, op, cls):
                     s.discard(x)
                 else:
                     s.remove(x)
-        if visited != model:
-            raise Mismatch('iteration-with-removal', 'removing %r while iterating %r visited %r'
-                           % (op[1], model, visited))
+        if visited != (model[::-1] if backwards else model):
+            raise Mismatch('iteration-with-removal', 'removing %r while iterating %r%s visited %r'
+                           % (op[1], model, ' in reverse' if backwards else '', visited))
         model = [x for x in model if x not in op[1]]
     else:
         raise AssertionError(op)
